@@ -14,9 +14,10 @@ PROPERTY_ID = 'C04'
 RULE = ('Histories of attach / duplicate attach / detach / detach-absent / interest / advance / reply over three subjects sharing one '
         'dict model: appv2 attach_handler/detach_handler (+reply callback), legacy set_interest_filter/unset_interest_filter, '
         'Dispatcher.register/unregister/dispatch. Prefixes from a small component alphabet (generic, typed, empty component; root '
-        'included) attached through 7 input representations. Oracle: handler invoked == handler at the longest attached prefix, '
+        'included) attached through 11 input representations (4 of them in mutable buffers the caller overwrites right after the call), with '
+        'no / accepting / rejecting / slow (30 ms) accepting validator; plain and parameterised Interests. Oracle: handler invoked == handler at the longest attached prefix, '
         'exactly once, with the Interest name; duplicate attach raises ValueError and changes nothing; detached handlers never fire; '
-        'v2 reply: bytes on the face iff now <= arrival+lifetime (default 4000 ms; +-1 ms at the boundary both accepted) and '
+        'v2 reply: bytes on the face iff now <= arrival+lifetime (arrival = delivery to the application, before any validation; default 4000 ms; +-1 ms at the boundary both accepted) and '
         'bool(reply()) == sent. Non-trivial = >=2 nested prefixes attached at an Interest, or a detach earlier, or a reply after '
         'the deadline; distinct key = (subject, abstract trace).')
 ASSUMPTIONS = [
